@@ -271,59 +271,79 @@ def lean_sources_for(prop):
     return sorted(out)
 
 
-def prove(ctx, module=None, allowed_extra_axioms=()):
-    """Re-check every theorem of GoluaVerif.Props.<prop> against the regenerated definitions.
+def props_files(prop):
+    """Props/<prop>.lean plus Props/<prop>_*.lean (a property's theorems may be split over several files)."""
+    d = os.path.join(LEAN, "GoluaVerif", "Props")
+    out = []
+    for f in sorted(os.listdir(d)):
+        if f == prop + ".lean" or (f.startswith(prop + "_") and f.endswith(".lean")):
+            out.append(f[:-5])
+    return out
+
+
+def prove(ctx, allowed_extra_axioms=()):
+    """Re-check every theorem of GoluaVerif.Props.<prop>[_*] against the regenerated definitions.
     Fills ctx.obligations.  Returns True iff all discharged with allowed axioms only."""
     prop = ctx.prop
-    module = module or ("GoluaVerif.Props." + prop)
-    relpath = os.path.join("GoluaVerif", "Props", prop + ".lean")
-    path = os.path.join(LEAN, relpath)
-    names = theorem_names(path)
-    ctx.checker_cmd = "lake build %s && lake env lean GoluaVerif/AuditRun/%s.lean  (#print axioms on every theorem)" % (module, prop)
+    stems = props_files(prop)
+    modules = ["GoluaVerif.Props." + s for s in stems]
+    ctx.checker_cmd = "lake build %s && lake env lean GoluaVerif/AuditRun/%s.lean  (#print axioms on every theorem)" % (
+        " ".join(modules), prop)
     hits = forbidden_scan(lean_sources_for(prop))
-    rc, out = lake_build([module])
-    failed_lines = {}
-    if rc != 0:
-        # find which theorems of the Props file fail; errors elsewhere (imports) fail all of them
+    ok_all = True
+    built = []
+    for stem, module in zip(stems, modules):
+        relpath = os.path.join("GoluaVerif", "Props", stem + ".lean")
+        names = theorem_names(os.path.join(LEAN, relpath))
+        rc, out = lake_build([module])
+        if rc == 0:
+            built.append((stem, module, names))
+            continue
+        ok_all = False
+        # find which theorems of this file fail; errors elsewhere (imports) fail all of them
         rc2, out2 = sh(["lake", "env", "lean", relpath], cwd=LEAN, timeout=3000)
         errs = re.findall(r"^(\S+?):(\d+):(\d+): error", out2, re.M)
         import_broken = ("unknown module prefix" in out2 or "object file" in out2 or
                          re.search(r"error: .*(does not exist|failed to build|no such file)", out2) is not None)
-        errlines = sorted(int(l) for f, l, c in errs if f.endswith(prop + ".lean"))
-        if (not errs and rc2 != 0) or import_broken or any(not f.endswith(prop + ".lean") for f, l, c in errs):
+        errlines = sorted(int(l) for f, l, c in errs if f.endswith(stem + ".lean"))
+        if (not errs and rc2 != 0) or any(not f.endswith(stem + ".lean") for f, l, c in errs):
             import_broken = True
         for idx, (n, ln) in enumerate(names):
             nxt = names[idx + 1][1] if idx + 1 < len(names) else 10 ** 9
             bad = import_broken or any(ln <= e < nxt for e in errlines)
             ctx.obligations.append({"name": n, "ok": not bad, "axioms": [],
-                                    "note": "does not elaborate against the regenerated definitions" if bad else ""})
+                                    "note": "does not elaborate against the regenerated definitions" if bad else
+                                    "elaborates (axioms not audited because the module as a whole failed)"})
         ctx.notes.append("lake build %s failed:\n%s" % (module, (out if import_broken else out2)[-3000:]))
-        return False
-    # audit axioms
-    adir = os.path.join(LEAN, "GoluaVerif", "AuditRun")
-    os.makedirs(adir, exist_ok=True)
-    afile = os.path.join(adir, prop + ".lean")
-    txt = "import GoluaVerif.Audit\nimport %s\n#audit_module %s\n" % (module, module)
-    if not os.path.exists(afile) or open(afile).read() != txt:
-        open(afile, "w").write(txt)
-    rc, out = sh(["lake", "env", "lean", os.path.join("GoluaVerif", "AuditRun", prop + ".lean")], cwd=LEAN, timeout=1800)
-    seen = {}
-    for m in re.finditer(r"^AUDIT (\S+) \[(.*)\]$", out, re.M):
-        ax = [a.strip() for a in m.group(2).split(",") if a.strip()]
-        seen[m.group(1).split(".")[-1]] = ax
-    allowed = ALLOWED_AXIOMS | set(allowed_extra_axioms)
-    ok_all = rc == 0
-    for n, ln in names:
-        short = n.split(".")[-1]
-        if short not in seen:
-            ctx.obligations.append({"name": n, "ok": False, "axioms": [], "note": "not found by the audit"})
+    if built:
+        adir = os.path.join(LEAN, "GoluaVerif", "AuditRun")
+        os.makedirs(adir, exist_ok=True)
+        afile = os.path.join(adir, prop + ".lean")
+        txt = "import GoluaVerif.Audit\n" + "".join("import %s\n" % m for _, m, _ in built) + \
+              "".join("#audit_module %s\n" % m for _, m, _ in built)
+        if not os.path.exists(afile) or open(afile).read() != txt:
+            open(afile, "w").write(txt)
+        rc, out = sh(["lake", "env", "lean", os.path.join("GoluaVerif", "AuditRun", prop + ".lean")], cwd=LEAN, timeout=1800)
+        seen = {}
+        for m in re.finditer(r"AUDIT (\S+) \[(.*)\]\s*$", out, re.M):
+            ax = [a.strip() for a in m.group(2).split(",") if a.strip()]
+            seen[m.group(1).split(".")[-1]] = ax
+        allowed = ALLOWED_AXIOMS | set(allowed_extra_axioms)
+        if rc != 0:
             ok_all = False
-            continue
-        bad = [a for a in seen[short] if a not in allowed]
-        ctx.obligations.append({"name": n, "ok": not bad, "axioms": seen[short],
-                                "note": ("disallowed axioms: " + ",".join(bad)) if bad else ""})
-        if bad:
-            ok_all = False
+            ctx.notes.append("audit failed:\n" + out[-2000:])
+        for stem, module, names in built:
+            for n, ln in names:
+                short = n.split(".")[-1]
+                if short not in seen:
+                    ctx.obligations.append({"name": n, "ok": False, "axioms": [], "note": "not found by the audit"})
+                    ok_all = False
+                    continue
+                bad = [a for a in seen[short] if a not in allowed]
+                ctx.obligations.append({"name": n, "ok": not bad, "axioms": seen[short],
+                                        "note": ("disallowed axioms: " + ",".join(bad)) if bad else ""})
+                if bad:
+                    ok_all = False
     if hits:
         ctx.notes.append("forbidden constructs found:\n" + "\n".join(hits))
         ctx.obligations.append({"name": "no_sorry_axiom_native_decide_scan", "ok": False, "axioms": [], "note": "; ".join(hits[:5])})
@@ -331,10 +351,12 @@ def prove(ctx, module=None, allowed_extra_axioms=()):
     else:
         ctx.obligations.append({"name": "no_sorry_axiom_native_decide_scan", "ok": True, "axioms": [], "note": "grep over lean/**/*.lean"})
     if ctx.tier == "thorough":
-        rc, out = sh(["lake", "env", "leanchecker", module], cwd=LEAN, timeout=3000)
-        ctx.obligations.append({"name": "leanchecker_" + prop, "ok": rc == 0, "axioms": [], "note": out[-300:] if rc else "independent re-check of the .olean"})
-        if rc != 0:
-            ok_all = False
+        for stem, module, names in built:
+            rc, out = sh(["lake", "env", "leanchecker", module], cwd=LEAN, timeout=3000)
+            ctx.obligations.append({"name": "leanchecker_" + stem, "ok": rc == 0, "axioms": [],
+                                    "note": out[-300:] if rc else "independent re-check of the .olean"})
+            if rc != 0:
+                ok_all = False
     return ok_all
 
 
